@@ -30,6 +30,16 @@ def main():
     mod = importlib.import_module(f"vf.checks.{spec['prop'].lower()}")
     ctx = Ctx(spec["prop"], spec["tier"], spec["seed"], spec["shard"],
               spec["n_shards"], spec["cases"], spec.get("params"))
+    if (spec["shard"] % 4 == 1 and spec.get("replay") is None) or os.environ.get("VF_DEBUG_LOG"):
+        # every fourth shard runs with the package's loggers at DEBUG (the messages go nowhere): code that only
+        # runs when somebody listens is part of what a user executes
+        import logging
+        ak_log = logging.getLogger("ak")
+        if not ak_log.handlers:
+            ak_log.addHandler(logging.NullHandler())
+        ak_log.propagate = False
+        ak_log.setLevel(logging.DEBUG)
+        ctx.counters["shards_run_with_the_package_loggers_at_DEBUG"] = 1
     try:
         if spec.get("replay") is not None:
             mod.replay(ctx, unjson(spec["replay"]))
